@@ -12,6 +12,9 @@ of its clauses have parts that are closed-form code and table agreement; only th
                add_other_logk / add_logks is  target[j] += named[j] * coef  with the SAME slot index on both sides, and the slot
                ranges cover logK_T0, delta_h, T_A1..T_A6 and delta_v.. (the analytical coefficients replace logK_T0/delta_h only
                when the named expression has any)
+  C01.select   which half of the record is used: select_log_k_expression / add_other_logk decide "has an analytical expression"
+               by examining ALL six coefficients (the loop over T_A1..T_A6 leaves only from inside the non-zero test), then copy
+               slot j to slot j: the analytical half replaces logK_T0 / delta_h (zeroed) or vice versa, delta_v.. always copied
   C01.kcall    unit discipline at every call of k_calc: the temperature argument is a Kelvin quantity (an expression that
                mentions a Celsius quantity - tc, tc_x, Get_tc() - must be that quantity + 273.15) and the pressure argument is
                an atmosphere quantity times 101325 (or the reference 101325 itself)
@@ -128,6 +131,7 @@ def run(P, R, tier):
                     "rewriting of reactions to primary/secondary master species; delta_h unit conversion"]
     logk_rule(P, R)
     addlogk_rule(P, R)
+    select_rule(P, R)
     kcall_rule(P, R)
     slots_rule(P, R)
     si_rule(P, R)
@@ -261,6 +265,52 @@ def addlogk_rule(P, R):
                     file=f["file"], line=f["line"], function=f["q"])
     if n < 4:
         R.anchor_missing("C01.addlogk", "only %d slot accumulations found in add_other_logk / add_logks" % n)
+
+
+def select_rule(P, R):
+    R.rule("C01.select", "the analytical-expression test examines all six coefficients; slots are copied index to index", minimum=6)
+    for q in ("Phreeqc::select_log_k_expression", "Phreeqc::add_other_logk"):
+        f = P.one(q)
+        where = dict(file=f["file"], function=f["q"])
+        anyloops = []
+        for x in T.walk(f["body"]):
+            if x[0] == "For" and "T_A1" in T.text(x[2]) and "T_A6" in T.text(x[3]):
+                body = x[5][2] if x[5][0] == "Compound" else [x[5]]
+                tests = [s_ for s_ in body if T.is_node(s_) and s_[0] == "If" and any(y[0] == "Bin" and y[2] == "!=" for y in T.walk(s_[2]))
+                         and any(w[0] == "Bin" and w[2] == "=" and T.lit_value(w[4]) == 1 for w in T.walk(s_[3]))]
+                if tests:
+                    anyloops.append((x, body, tests))
+        if not anyloops:
+            R.anchor_missing("C01.select", "%s: the loop that looks for a non-zero analytical coefficient was not found" % q)
+            continue
+        for x, body, tests in anyloops:
+            inst = "%s:any-coefficient@%d" % (q.split("::")[-1], x[1])
+            early = [s_ for s_ in body if T.is_node(s_) and s_[0] in ("Break", "Return", "Goto")]
+            if early:
+                R.violation("C01.select", inst, "the loop over T_A1..T_A6 leaves unconditionally after the first coefficient (line %d): an expression whose A1 is 0 is taken for "
+                            "absent and log_k/delta_h is used instead of the analytical expression the database prescribes" % early[0][1], line=early[0][1], **where)
+            else:
+                R.ok("C01.select", inst, "leaves the loop only from inside the non-zero test")
+    f = P.one("Phreeqc::select_log_k_expression")
+    where = dict(file=f["file"], function=f["q"])
+    n = 0
+    for x in T.walk(f["body"]):
+        if x[0] == "Bin" and x[2] == "=" and T.strip_casts(x[3])[0] == "Index":
+            t = T.strip_casts(x[3])
+            r = T.strip_casts(x[4])
+            n += 1
+            inst = "select:%s@%d" % (T.text(t[3]), x[1])
+            if r[0] == "Index":
+                if T.text(r[3]) == T.text(t[3]):
+                    R.ok("C01.select", inst, "slot copied index to index")
+                else:
+                    R.violation("C01.select", inst, "slot %s of the selected record is filled from slot %s of the source" % (T.text(t[3]), T.text(r[3])), line=x[1], **where)
+            elif r[0] == "Lit" and float(str(r[3]).rstrip("fFlL")) == 0.0:
+                R.ok("C01.select", inst, "unused half zeroed")
+            else:
+                R.violation("C01.select", inst, "unexpected value `%s` stored into the selected record" % T.text(x[4])[:40], line=x[1], **where)
+    if n < 6:
+        R.anchor_missing("C01.select", "select_log_k_expression: only %d slot stores found" % n)
 
 
 CELSIUS = ("tc_x", "tc", "Get_tc", "tc1", "tc2")
